@@ -1,17 +1,24 @@
 #!/bin/sh
-# Build the framework from files on disk only (offline): Lean theorem modules + model drivers, Rust harnesses.
-set -e
+# Build the framework from files on disk only (offline): Lean theorem modules + model drivers and the
+# Rust harnesses of every property claimed in MANIFEST.json. Best effort per property: a target that fails
+# to build here is rebuilt (and reported) by its own ./check run.
 cd "$(dirname "$0")"
 export CARGO_NET_OFFLINE=true
-( cd lean && lake build $(python3 - <<'PY'
-import glob, json
-t = []
-for p in sorted(glob.glob('../props/C*.json')):
-    c = json.load(open(p))
-    if c.get('disabled'): continue
-    t += [c['lean_props'], c['driver']]
-print(' '.join(dict.fromkeys(t)))
+python3 - <<'PY' > /tmp/.p2verif_targets
+import json
+m = json.load(open('MANIFEST.json'))
+lean, crates = [], []
+for c in m['checks']:
+    p = json.load(open('props/%s.json' % c['property_id']))
+    lean += [p['lean_props'], p['driver']]
+    crates.append(p['harness'])
+print(' '.join(dict.fromkeys(lean)))
+print(' '.join('-p ' + c for c in dict.fromkeys(crates)))
 PY
-) )
-( cd harness && cargo build --workspace 2>&1 | tail -3 )
+LEAN_TARGETS=$(sed -n 1p /tmp/.p2verif_targets)
+CRATES=$(sed -n 2p /tmp/.p2verif_targets)
+rm -f /tmp/.p2verif_targets
+( cd lean && lake build $LEAN_TARGETS 2>&1 | tail -3 ) || echo "setup: some Lean targets failed (their checks will report it)"
+( cd harness && cargo build $CRATES 2>&1 | tail -3 ) || echo "setup: some harness crates failed (their checks will report it)"
 echo setup done
+exit 0
